@@ -460,8 +460,10 @@ static int img_desc (const rq_image *im, char *b, size_t n, int role)
     if (im->accessors) k += snprintf (b + k, n - k, " accessors");
     return k;
 }
-void rq_describe (const rq_request *q, char *buf, size_t n)
+void rq_describe (const rq_request *q, char *out, size_t outn)
 {
+    /* formatted into a buffer that is always large enough (the pieces add their lengths up), then truncated to the caller's size */
+    char buf[6000]; size_t n = sizeof buf;
     int k = snprintf (buf, n, "op=%d src={", (int)q->op);
     k += img_desc (&q->src, buf + k, n - k, 0);
     k += snprintf (buf + k, n - k, "} mask={");
@@ -469,6 +471,7 @@ void rq_describe (const rq_request *q, char *buf, size_t n)
     k += snprintf (buf + k, n - k, "} dst={");
     k += img_desc (&q->dst, buf + k, n - k, 2);
     snprintf (buf + k, n - k, "} src_xy=(%d,%d) mask_xy=(%d,%d) dst=(%d,%d %dx%d)%s", q->sx, q->sy, q->mx, q->my, q->dx, q->dy, q->w, q->h, q->cover ? " cover" : "");
+    snprintf (out, outn, "%s", buf);
 }
 static const char *kind_label (const rq_image *im)
 {
